@@ -394,6 +394,92 @@ theorem parse_prefix (m : M) : ∀ f, PVloc m f ∧ PEloc m f := by
   | succ f ih => exact ⟨pv_step m f ih.2, pe_step m f ih.1 ih.2⟩
 
 
+/-! ### the values in front of an end-of-contents marker -/
+
+theorem parseValue_nil (m : M) (f : Nat) : parseValue m f [] = none := by
+  cases f <;> simp [parseValue, readIdent]
+
+/-- if the grammar reads the values `ts` and then end-of-contents from `v`, the octets in front of
+    the end-of-contents marker (whose size is `eocLen`) are exactly the values `ts`, nothing else -/
+theorem untilEoc_values (m : M) : ∀ (f : Nat) (v : Bytes) (ts : List Tree) (rest : Bytes),
+    parseUntilEoc m f v = some (ts, rest) →
+    eocLen m f v ≤ v.length - rest.length ∧
+    parseAll m f (v.take (v.length - rest.length - eocLen m f v)) = some ts := by
+  intro f
+  induction f with
+  | zero => intro v ts rest h; simp [parseUntilEoc] at h
+  | succ f ih =>
+    intro v ts rest h
+    simp only [parseUntilEoc] at h
+    cases hri : readIdent v with
+    | none => simp [hri] at h
+    | some r =>
+      obtain ⟨id, k⟩ := r
+      simp only [hri] at h
+      by_cases he : isEocIdent id = true
+      · simp only [he, if_true] at h
+        by_cases hcn : id.constructed = true
+        · simp [hcn] at h
+        · simp only [hcn, Bool.false_eq_true, if_false] at h
+          cases hrl : readLen m.isBer (v.drop k) with
+          | none => simp [hrl] at h
+          | some r2 =>
+            obtain ⟨len?, kl⟩ := r2
+            rw [hrl] at h
+            cases len? with
+            | none => simp at h
+            | some n =>
+              cases n with
+              | succ n' => simp at h
+              | zero =>
+                simp only [Option.some.injEq, Prod.mk.injEq] at h
+                obtain ⟨rfl, rfl⟩ := h
+                obtain ⟨_, _, _, hk, _⟩ := C12.readIdent_bounds _ _ _ hri
+                obtain ⟨_, hkl⟩ := readLen_bound _ _ _ _ hrl
+                simp only [List.length_drop] at hkl
+                have hel : eocLen m (f + 1) v = k + kl := by simp only [eocLen, hri, he, if_true, hrl]
+                rw [hel]
+                simp only [List.length_drop]
+                refine ⟨by omega, ?_⟩
+                have : v.length - (v.length - (k + kl)) - (k + kl) = 0 := by omega
+                rw [this]
+                simp [parseAll]
+      · have he' : isEocIdent id = false := by simpa using he
+        simp only [he', Bool.false_eq_true, if_false] at h
+        cases hpv : parseValue m f v with
+        | none => simp [hpv] at h
+        | some r =>
+          obtain ⟨t, rest1⟩ := r
+          simp only [hpv] at h
+          cases hpe : parseUntilEoc m f rest1 with
+          | none => simp [hpe] at h
+          | some r3 =>
+            obtain ⟨ts', rest'⟩ := r3
+            simp only [hpe, Option.some.injEq, Prod.mk.injEq] at h
+            obtain ⟨rfl, rfl⟩ := h
+            obtain ⟨n1, hn1, hr1⟩ := (suffix_lemma m f).1 _ _ _ hpv
+            obtain ⟨n2, hn2, hr2⟩ := (suffix_lemma m f).2 _ _ _ hpe
+            obtain ⟨ihle, ihp⟩ := ih rest1 ts' rest' hpe
+            have hel : eocLen m (f + 1) v = eocLen m f rest1 := by
+              simp only [eocLen, hri, he', Bool.false_eq_true, if_false, hpv]
+            rw [hel]
+            subst hr1
+            simp only [List.length_drop] at ihle ihp hn2 ⊢
+            have hrl : rest'.length = v.length - n1 - n2 := by rw [hr2, List.length_drop, List.length_drop]
+            refine ⟨by omega, ?_⟩
+            -- the value at the front of the prefix
+            have hN : n1 ≤ v.length - rest'.length - eocLen m f (v.drop n1) := by omega
+            have hv' := (parse_prefix m f).1 v t n1 _ hN hn1 hpv
+            rw [drop_take_comm v n1 _ hN] at hv'
+            have hne : (v.take (v.length - rest'.length - eocLen m f (v.drop n1))).isEmpty = false := by
+              cases hx : v.take (v.length - rest'.length - eocLen m f (v.drop n1)) with
+              | nil => rw [hx, parseValue_nil] at hv'; cases hv'
+              | cons b r => rfl
+            have harg : v.length - rest'.length - eocLen m f (v.drop n1) - n1 =
+                v.length - n1 - rest'.length - eocLen m f (v.drop n1) := by omega
+            rw [harg] at hv'
+            simp only [parseAll, hne, Bool.false_eq_true, if_false, hv', ihp, Option.map]
+
 /-! ### `capture_one` captures exactly one complete value -/
 
 /-- **C11: `capture_one` returns exactly the octets of the next complete value.**  On any source
@@ -426,7 +512,7 @@ theorem capture_one_value (c : Cons) (N : Nat) (d : Bytes) (l : Option Nat) (byt
       have hvd : (St d l).view.length ≤ d.length := G0.view_length_le _
       have hk : d.length - ((St d l).adv n).data.length = n := by
         simp only [G0.adv, List.length_drop]; omega
-      simp only [runG0_pure, hk] at h
+      simp only [runG0_pure, hk, if_true, Nat.sub_zero] at h
       have htake : (St d l).view.take n = d.take n := by
         cases l with
         | none => rfl
@@ -456,6 +542,39 @@ theorem capture_one_value (c : Cons) (N : Nat) (d : Bytes) (l : Option Nat) (byt
             | (rw [← h.2]; rfl)
             | (rw [← h.1.2])
 
+
+/-- **C11: `capture_all` never returns the end-of-contents marker of the enclosing value.**  Inside
+    an indefinite-length value (any source `St d l` without open capture): if what is in view is, by
+    the grammar of the mode, the values `ts` followed by end-of-contents (and then `rest`),
+    `capture_all` (with a budget for the headers of `ts`) returns `d.take j` where those `j` octets
+    are EXACTLY the values `ts` — they parse, on their own, as `ts` with nothing left — the
+    `Constructed` is `done`, and decoding continues immediately BEHIND the end-of-contents octets. -/
+theorem capture_all_indef_values (m : Mode) (N : Nat) (d : Bytes) (l : Option Nat) (f : Nat) (ts : List Tree)
+    (rest : Bytes) (hp : parseUntilEoc (toM m) f (St d l).view = some (ts, rest)) (hN : C10.hdrsL ts + 2 ≤ N) :
+    ∃ j, runG0 (captureAll ⟨.indefinite, m, 0⟩ N) (St d l) =
+        .ok ((d.take j, ⟨.done, m, eocLen (toM m) f (St d l).view⟩),
+          (St d l).adv ((St d l).view.length - rest.length)) ∧
+      j + eocLen (toM m) f (St d l).view = (St d l).view.length - rest.length ∧
+      parseAll (toM m) f (d.take j) = some ts := by
+  obtain ⟨hle, hpa⟩ := untilEoc_values (toM m) f _ ts rest hp
+  have hvd : (St d l).view.length ≤ d.length := G0.view_length_le _
+  generalize hn : (St d l).view.length - rest.length = n at hle hpa ⊢
+  have hnv : n ≤ (St d l).view.length := by omega
+  refine ⟨n - eocLen (toM m) f (St d l).view, ?_, by omega, ?_⟩
+  · unfold captureAll
+    rw [C16.capture_run0 _ _ (fun c => nocap_skipAll N c) d l,
+      C10.skipAll_indef f m 0 (St d l) N ts rest rfl hp hN, hn]
+    have hk : d.length - ((St d l).adv n).data.length = n := by
+      simp only [G0.adv, List.length_drop]; omega
+    simp only [hk]
+    cases l with
+    | none => simp [G0.adv]
+    | some lim =>
+      have := view_le_limit (St d (some lim)) lim rfl
+      have hl : ¬ lim < n := by omega
+      simp [hl, G0.adv]
+  · rw [← C10.take_view (St d l) _ (by omega)]
+    exact hpa
 
 /-- **C11: decoding the captured data later yields the same value as decoding it in place.**  The
     octets `capture_one` returned, parsed on their own, are exactly the value that stood at the
@@ -495,7 +614,7 @@ theorem captured_value_read_later (c : Cons) (N : Nat) (d : Bytes) (l : Option N
     their own (`Captured::decode`) and reading the same octets in place as the content of a
     definite-length value (whatever follows them) deliver the same trees — both equal the grammar. -/
 theorem decode_later_same (m : Mode) (f : Nat) (cap rest : Bytes) (ts : List Tree) (g' : G0)
-    (h : runG0 (readAll f ⟨.definite, m⟩) (St (cap ++ rest) (some cap.length)) = .ok ((ts, ⟨.definite, m⟩), g')) :
+    (h : runG0 (readAll f ⟨.definite, m, 0⟩) (St (cap ++ rest) (some cap.length)) = .ok ((ts, ⟨.definite, m, 0⟩), g')) :
     runG0 (decodeAll m f) (St cap none) = .ok (ts, St [] none) := by
   have hd := definite_parent m f (cap ++ rest) cap.length
   rw [h] at hd
